@@ -126,6 +126,10 @@ def one(cid, est, rng, big, wide=False):
                 obj = F().from_gmat(gm, **kw)
             else:
                 obj = Cls.from_gmat(gm, **kw)
+            if rng.random() < 0.5:
+                # the caller uses its argument arrays (reference frequencies, marker weights) again: the recorded matrix is the one of
+                # the SECOND call with the very same argument objects
+                obj = (F().from_gmat(gm, **kw) if use_factory else Cls.from_gmat(gm, **kw)); c["argreuse"] = True
             G = np.asarray(obj.mat_asformat("coancestry"), dtype=float); K = np.asarray(obj.mat_asformat("kinship"), dtype=float)
             ok = [True]
             c["G"] = [[rat(G[a, b], ok) for b in range(n)] for a in range(n)]
